@@ -15,7 +15,8 @@ pub struct Stall {
     /// 0 http, 1 socks5, 2 socks4, 3 socks5 with userpass on the auth listener (a client that goes silent inside the handshake);
     /// 4 http, 5 socks5, 6 socks4, 7 quic: a request routed to a connector whose upstream goes silent inside *its* handshake;
     /// 8: a chatty reverse-UDP client whose session is routed to such a silent upstream (300 datagrams);
-    /// 9: a QUIC client that goes silent after its first handshake packet
+    /// 9: a QUIC client that goes silent after its first handshake packet;
+    /// 10: a TLS client of the https listener that goes silent inside its ClientHello
     pub kind: u8,
     /// selector for the number of handshake bytes sent before going silent
     pub at: u16,
@@ -33,7 +34,7 @@ pub struct Case {
 
 pub fn case_strategy() -> impl Strategy<Value = Case> {
     (
-        prop::collection::vec((prop_oneof![6 => 0u8..4, 4 => 4u8..8, 1 => Just(8u8), 1 => Just(9u8)], any::<u16>()).prop_map(|(kind, at)| Stall { kind, at }), 0..10),
+        prop::collection::vec((prop_oneof![6 => 0u8..4, 4 => 4u8..8, 1 => Just(8u8), 1 => Just(9u8), 1 => Just(10u8)], any::<u16>()).prop_map(|(kind, at)| Stall { kind, at }), 0..10),
         0u8..3,
         prop::collection::vec(0u8..7, 1..8),
         1u8..3,
@@ -60,6 +61,7 @@ struct Fx {
     up_at: std::sync::Arc<std::sync::atomic::AtomicU32>,
     revudp: u16,
     quic: u16,
+    https: u16,
     /// the one UDP client whose reverse-UDP session is routed to the silent upstream
     flooder: std::sync::Arc<tokio::net::UdpSocket>,
     rules: serde_json::Value,
@@ -107,7 +109,7 @@ async fn fixture() -> Result<Fx, String> {
             }
         }));
     }
-    let (revudp, quic) = (free_port(), free_port());
+    let (revudp, quic, https) = (free_port(), free_port(), free_port());
     let flooder = std::sync::Arc::new(tokio::net::UdpSocket::bind("127.0.0.1:0").await.map_err(|e| e.to_string())?);
     let flood_port = flooder.local_addr().unwrap().port();
     let uecho = tokio::net::UdpSocket::bind("127.0.0.1:0").await.map_err(|e| e.to_string())?;
@@ -160,6 +162,12 @@ listeners:
     target: {uecho}
   - name: quic
     bind: 127.0.0.1:{quic}
+    tls:
+      cert: /verif/pki/server.crt
+      key: /verif/pki/server.key
+  - name: https
+    type: http
+    bind: 127.0.0.1:{https}
     tls:
       cert: /verif/pki/server.crt
       key: /verif/pki/server.key
@@ -219,6 +227,7 @@ ioParams:
         qport = qport,
         revudp = revudp,
         quic = quic,
+        https = https,
         uecho = uecho_addr,
         flood_port = flood_port
     );
@@ -244,6 +253,7 @@ ioParams:
         up_at,
         revudp,
         quic,
+        https,
         flooder,
         rules,
         _up_tasks: up_tasks,
@@ -289,7 +299,27 @@ async fn api_call(port: u16, which: u8, dur: Duration, rules: &serde_json::Value
 
 /// one small echo tunnel through the given listener
 async fn fresh_tunnel(fx: &Fx, listener: u8, dur: Duration) -> Result<(), String> {
-    if listener % 6 == 4 {
+    if listener % 7 == 6 {
+        // a fresh TLS client of the https listener
+        let fut = async {
+            let tcp = TcpStream::connect(lo(fx.https)).await.map_err(|e| e.to_string())?;
+            let cx = tokio_rustls::TlsConnector::from(crate::tlsutil::client_config("ca.crt", None, None));
+            let mut s = cx.connect(crate::tlsutil::server_name(), tcp).await.map_err(|e| format!("tls handshake: {}", e))?;
+            let d = dest_for(fx.origin.addr);
+            if !matches!(http_connect(&mut s, &d.authority(), &[], &[], dur).await, Reply::Ok { .. }) {
+                return Err("CONNECT over TLS failed".to_string());
+            }
+            s.write_all(b"tls-hello").await.map_err(|e| e.to_string())?;
+            let mut got = [0u8; 9];
+            s.read_exact(&mut got).await.map_err(|e| format!("echo: {}", e))?;
+            Ok(())
+        };
+        return match tokio::time::timeout(dur, fut).await {
+            Ok(r) => r,
+            Err(_) => Err("timeout".into()),
+        };
+    }
+    if listener % 7 == 4 {
         // a fresh reverse-UDP client: one datagram, one echo
         let fut = async {
             let u = tokio::net::UdpSocket::bind("127.0.0.1:0").await.map_err(|e| e.to_string())?;
@@ -310,7 +340,7 @@ async fn fresh_tunnel(fx: &Fx, listener: u8, dur: Duration) -> Result<(), String
             Err(_) => Err("timeout".into()),
         };
     }
-    if listener % 6 == 5 {
+    if listener % 7 == 5 {
         // a fresh QUIC client: handshake, CONNECT on a stream, echo
         let fut = async {
             let ep = crate::tlsutil::quic_client("ca.crt", None);
@@ -335,7 +365,7 @@ async fn fresh_tunnel(fx: &Fx, listener: u8, dur: Duration) -> Result<(), String
         };
     }
     let fut = async {
-        let (port, kind) = match listener % 6 {
+        let (port, kind) = match listener % 7 {
             0 => (fx.http, 0),
             1 => (fx.socks, 1),
             2 => (fx.socks, 2),
@@ -366,8 +396,8 @@ async fn fresh_tunnel(fx: &Fx, listener: u8, dur: Duration) -> Result<(), String
     }
 }
 
-const LISTENER_NAMES: &[&str] = &["http", "socks5", "socks4", "reverse", "reverse-udp", "quic"];
-const NL: u8 = 6;
+const LISTENER_NAMES: &[&str] = &["http", "socks5", "socks4", "reverse", "reverse-udp", "quic", "https"];
+const NL: u8 = 7;
 
 pub async fn run_case(c: &Case) -> Result<(bool, serde_json::Value), Failure> {
     let bound = Duration::from_secs(6);
@@ -402,6 +432,18 @@ pub async fn run_case(c: &Case) -> Result<(bool, serde_json::Value), Failure> {
             }
             inside = true;
             stall_desc.push("reverse-udp-client-300-datagrams-to-silent-upstream".to_string());
+            continue;
+        }
+        if st.kind == 10 {
+            // a TLS client that sends a strict prefix of a ClientHello record and then nothing
+            let hello: Vec<u8> = [&[0x16u8, 0x03, 0x01, 0x02, 0x00, 0x01, 0x00, 0x01, 0xfc, 0x03, 0x03][..], &vcore::payload(7, 501)[..]].concat();
+            let k = ((st.at as usize) * hello.len()) >> 16;
+            if let Ok(mut s) = TcpStream::connect(lo(fx.https)).await {
+                let _ = s.write_all(&hello[..k]).await;
+                inside = true;
+                stall_desc.push(format!("tls-client-hello@{}/{}", k, hello.len()));
+                held.push(s);
+            }
             continue;
         }
         if st.kind == 9 {
@@ -521,7 +563,7 @@ pub async fn run_case(c: &Case) -> Result<(bool, serde_json::Value), Failure> {
     let shape = if c.stalls.is_empty() && c.blocked_tunnels == 0 {
         "no-stall".to_string()
     } else {
-        let mut kinds: Vec<&str> = c.stalls.iter().map(|s| ["http", "socks5", "socks4", "socks5-auth", "upstream-http", "upstream-socks5", "upstream-socks4", "upstream-quic", "reverse-udp-chatty", "quic-handshake"][(s.kind % 10) as usize]).collect();
+        let mut kinds: Vec<&str> = c.stalls.iter().map(|s| ["http", "socks5", "socks4", "socks5-auth", "upstream-http", "upstream-socks5", "upstream-socks4", "upstream-quic", "reverse-udp-chatty", "quic-handshake", "tls-handshake"][(s.kind % 11) as usize]).collect();
         if c.blocked_tunnels > 0 {
             kinds.push("blocked-tunnel");
         }
@@ -577,7 +619,7 @@ impl SubCheck for StallCheck {
         "stalls"
     }
     fn rule(&self) -> String {
-        "generated schedules, each on a fresh real proxy: 0-9 clients stalled after k bytes of a valid handshake (HTTP CONNECT head, SOCKS5 greeting+request, SOCKS4 request, SOCKS5 with userpass; k drawn over every offset 0..len) or requests routed to an http / socks5 / socks4 / quic connector whose upstream accepts, sends a generated strict prefix of a valid reply (0..len-1 bytes) and goes silent, a reverse-UDP client that keeps sending 300 datagrams into a session hanging on such an upstream, a QUIC client of which only the first one or two handshake packets arrive, 0-2 established tunnels whose far consumer never reads (filled until the writer blocks), then 1-7 API calls (status, live, history, rules GET, metrics, rules POST, logrotate) issued concurrently with fresh echo tunnels through the http, socks5, socks4, reverse, reverse-UDP and QUIC listeners; oracle: every API call and every fresh tunnel completes within 6 s (the same calls take < 1.5 s in total in the control phase before the stall set; a slower control makes the case inconclusive); non-trivial = some stall strictly inside a handshake message and at least one concurrent API call".into()
+        "generated schedules, each on a fresh real proxy: 0-9 clients stalled after k bytes of a valid handshake (HTTP CONNECT head, SOCKS5 greeting+request, SOCKS4 request, SOCKS5 with userpass; k drawn over every offset 0..len) or requests routed to an http / socks5 / socks4 / quic connector whose upstream accepts, sends a generated strict prefix of a valid reply (0..len-1 bytes) and goes silent, a reverse-UDP client that keeps sending 300 datagrams into a session hanging on such an upstream, a QUIC client of which only the first one or two handshake packets arrive, a TLS client stalled inside its ClientHello, 0-2 established tunnels whose far consumer never reads (filled until the writer blocks), then 1-7 API calls (status, live, history, rules GET, metrics, rules POST, logrotate) issued concurrently with fresh echo tunnels through the http, socks5, socks4, reverse, reverse-UDP, QUIC and https listeners; oracle: every API call and every fresh tunnel completes within 6 s (the same calls take < 1.5 s in total in the control phase before the stall set; a slower control makes the case inconclusive); non-trivial = some stall strictly inside a handshake message and at least one concurrent API call".into()
     }
     fn run(&self, part: &mut Part) {
         let n = part.tier.pick(40, 600) as usize;
